@@ -2,11 +2,12 @@
 from .common import *
 ID = "C07"
 FUNCTIONS = [TF + "__len__", TF + "all", TF + "reindex", IX + "__len__", IX + "build"] + \
-    [IX + f for f in ("get_measurements", "get_tag_keys", "get_field_keys")] + [TF + f for f in ("get_measurements", "get_tag_keys", "get_field_keys")] + \
-    ["tinyflux.measurement.Measurement." + f for f in ("get_tag_keys", "get_field_keys")]
-ASSUMED = ["tinyflux.storages.Storage.__len__", "tinyflux.storages.Storage.read"]
+    [IX + f for f in ("get_measurements", "get_tag_keys", "get_field_keys", "get_field_values", "get_timestamps")] + [TF + f for f in ("get_measurements", "get_tag_keys", "get_field_keys", "get_field_values", "get_timestamps")] + \
+    ["tinyflux.measurement.Measurement." + f for f in ("get_tag_keys", "get_field_keys", "get_field_values", "get_timestamps")]
+ASSUMED = ["tinyflux.storages.Storage.__len__", "tinyflux.storages.Storage.read", "tinyflux.storages.Storage._deserialize_timestamp"]
 STANDIN = "standins/dbdiff.py"
 TRUSTED = TRUSTED_CORE + [STORAGE_ASSUMED,
-                          "NOT under contract (bounded stand-in only): get_tag_values, get_field_values, get_timestamps (Index, TinyFlux, Measurement), Measurement.get... of those, TinyFlux.__iter__, Measurement.__len__/__iter__/all"]
+                          "NOT under contract (bounded stand-in only): get_tag_values (Index, TinyFlux, Measurement), TinyFlux.__iter__, Measurement.__len__/__iter__/all", TIME_ASSUMED,
+                          "three Skolem functions for existential clauses of the index invariant (every tag key has a value; every position occurs in the time order; conservative over the precondition)"]
 ASSUMPTIONS = [A_ALIAS]
 LEVEL = "other"
